@@ -68,6 +68,10 @@ class Gen:
         """copy function `name`, apply the exact-text rewrites, annotate.  qual: Verus-side name."""
         text, line = self._fn_text(f, name, impl)
         orig = text
+        # signature fingerprint (normalised text from `fn` to the body brace): contracts are written against these parameters
+        m_ = mask(orig)
+        k_ = m_.index('fn ')
+        sig = ' '.join(orig[k_:m_.index('{', k_)].split())
         for (rid, header, repl) in rewrites:
             if text.count(header) != 1:
                 raise LostAnchor('%s: rewrite %s: loop header not found exactly once' % (name, rid))
@@ -80,7 +84,7 @@ class Gen:
         out, fp = annotate_fn(text, ann, self.clauses, vname)
         if vname in self.stub or name in self.stub:
             out = stub_fn(out)
-        self.units.append({'fn': vname, 'file': 'src/%s.rs' % f, 'line': line, 'sha256': sha(orig), 'fingerprint': fp,
+        self.units.append({'fn': vname, 'file': 'src/%s.rs' % f, 'line': line, 'sha256': sha(orig), 'fingerprint': fp, 'sig': sig,
                            'props': list(props), 'own': list(props if own is None else own), 'stubbed': (vname in self.stub or name in self.stub),
                            'has_contract': bool(ann.get('requires') or ann.get('ensures'))})
         return out
